@@ -259,6 +259,14 @@ func runC02(r *core.Run) {
 		})
 
 	nilFieldsFastq(r)
+	firstBytes(r, "fastq", func(prefix string) ([]byte, []obsItem, bool, string) {
+		if hasDelim(prefix) {
+			return nil, nil, false, ""
+		}
+		recs := []fqRec{{core.S(prefix + "r"), "AC", "II"}, {"b", "G", "I"}}
+		data, fail := writeFastqChecked(recs)
+		return data, wantFastq(recs), true, fail
+	})
 	interleavedReadersFor(r, []string{"fastq"})
 	consumerMutatesRecords(r, []string{"fastq"})
 	bigFiles(r, "fastq", []int{0})
@@ -348,7 +356,7 @@ func runC02(r *core.Run) {
 
 	cpool := []fqRec{{"a", "A", "I"}, {"", "", ""}, {"@", "@", "@"}, {"r", "AC", "+I"}, {"+", "+A", "I+"}, {"x y", "ACG", "III"}}
 	maxFile := core.Pick(r, 2, 3)
-	r.Bound("corruptions", fmt.Sprintf("every file of 1..%d records over a pool of %d x every record index x {no-at, plus-replaced (by a line 'x'), plus-emptied, plus-deleted (only when the qualities do not start with '+'), quals-longer, quals-shorter, cut at every offset strictly inside the record and up to the first byte of its 4th line}", maxFile, len(cpool)))
+	r.Bound("corruptions", fmt.Sprintf("every file of 1..%d records over a pool of %d x every record index x {no-at, plus-replaced (by a line 'x'), plus-emptied, plus-deleted (only when the qualities do not start with '+'), quals-longer, quals-shorter, the sequence or the quality line longer by one byte of 12 kinds (blank, TAB, NUL, 0xFF, 0xA0, VT, FF, '@', '+', '.', '*', '!') at its end or start, cut at every offset strictly inside the record and up to the first byte of its 4th line}", maxFile, len(cpool)))
 	core.Clause(r, "corruptions", core.Opts{Rule: "every structural corruption (which record, which line, which kind, every cut offset) of every valid small file: records before r intact, then exactly one error item, then end, never a record at position r; non-trivial = all"},
 		func(emit func(c02Corrupt) bool) {
 			enum.Sequences(len(cpool), maxFile, func(sq []int) bool {
@@ -366,6 +374,15 @@ func runC02(r *core.Run) {
 					}
 					if len(recs[ri].Qual) > 0 {
 						kinds = append(kinds, "quals-shorter")
+					}
+					// the sequence or the quality line longer than the other by ONE byte of every kind a lenient
+					// reader might trim (blank, TAB, NUL, 0xFF, NBSP bytes, '@', '+', '.', '*'), at its end or start
+					for _, line := range []string{"seq", "quals"} {
+						for _, where := range []string{"end", "start"} {
+							for _, b := range []int{' ', '\t', 0x00, 0xFF, 0xA0, 0x0B, 0x0C, '@', '+', '.', '*', '!'} {
+								kinds = append(kinds, fmt.Sprintf("surplus:%s:%s:%d", line, where, b))
+							}
+						}
 					}
 					for _, k := range kinds {
 						if !emit(c02Corrupt{recs, ri, k, 0}) {
@@ -393,6 +410,25 @@ func runC02(r *core.Run) {
 					continue
 				}
 				n, s, q := string(rc.Name), string(rc.Seq), string(rc.Qual)
+				if strings.HasPrefix(c.Kind, "surplus:") {
+					p := strings.Split(c.Kind, ":")
+					var b int
+					fmt.Sscan(p[3], &b)
+					extra := string([]byte{byte(b)})
+					add := func(x string) string {
+						if p[2] == "end" {
+							return x + extra
+						}
+						return extra + x
+					}
+					if p[1] == "seq" {
+						s = add(s)
+					} else {
+						q = add(q)
+					}
+					file.WriteString("@" + n + "\n" + s + "\n+\n" + q + "\n")
+					continue
+				}
 				switch c.Kind {
 				case "no-at":
 					file.WriteString("x" + n + "\n" + s + "\n+\n" + q + "\n")
